@@ -1,6 +1,8 @@
 package main
 
 import (
+	"os"
+
 	"go.uber.org/zap"
 
 	"github.com/apache/yunikorn-core/pkg/log"
@@ -10,5 +12,12 @@ import (
 // scheduler logs every decision. (A no-op logger also never panics on DPanic.)
 func silenceLogs() {
 	cfg := zap.NewProductionConfig()
+	if os.Getenv("YK_LOG") != "" {
+		dcfg := zap.NewDevelopmentConfig()
+		l, _ := dcfg.Build()
+		log.InitializeLogger(l, &dcfg)
+		log.UpdateLoggingConfig(map[string]string{"log.level": "DEBUG"})
+		return
+	}
 	log.InitializeLogger(zap.NewNop(), &cfg)
 }
